@@ -392,8 +392,9 @@ def jobs(tier):
     ]
     out = []
     for pi in range(len(HTML_PREFIXES)):
-        out.append(Job('C16-b/html-suffix/p%02d' % pi, 'vf.props.c16:mk_html_suffix', dict(pi=pi, n=2 if q else 3), shape='H',
-                       bound='valid prefix + <=%d free chars' % (2 if q else 3), budget=900 if q else 3000, weight=5000))
+        m = 2 if (q or pi >= 13) else 3      # the prefixes added in round 4 keep the 2-character bound in both tiers
+        out.append(Job('C16-b/html-suffix/p%02d' % pi, 'vf.props.c16:mk_html_suffix', dict(pi=pi, n=m), shape='H',
+                       bound='valid prefix + <=%d free chars' % m, budget=900 if m == 2 else 3000, weight=5000))
     for pi in range(len(CSS_PREFIXES)):
         out.append(Job('C16-b/css-suffix/p%02d' % pi, 'vf.props.c16:mk_css_suffix', dict(pi=pi, n=2 if q else 3), shape='H',
                        bound='valid prefix + <=%d free chars' % (2 if q else 3), budget=900 if q else 3000, weight=5000))
